@@ -396,11 +396,12 @@ func buildSQLRef(e *Eval, enums map[*types.Named]*refEnum, unions map[*types.Nam
 				if reSelectKeyD.MatchString(m[2]) {
 					continue
 				}
-				content, err := expandEnumPlaceholders(root, m[2])
+				// table names are renamed in the text of the directive, then the placeholders are
+				// replaced by literals (which are values, not words of the directive: never renamed)
+				content, err := expandEnumPlaceholders(root, expandTableNames(m[2], tableNames))
 				if err != nil {
 					ref.unsupported = err.Error()
 				}
-				content = expandTableNames(content, tableNames)
 				if strings.HasPrefix(m[2], "ADD") {
 					content = "ALTER TABLE " + rt.sqlName + " " + content
 				}
@@ -426,11 +427,11 @@ func buildSQLRef(e *Eval, enums map[*types.Named]*refEnum, unions map[*types.Nam
 				q = rePlaceholder.ReplaceAllStringFunc(q, func(s string) string {
 					return fmt.Sprintf("$%d", seen[s[1:len(s)-1]])
 				})
-				q, err := expandEnumPlaceholders(root, q)
+				q, err := expandEnumPlaceholders(root, expandTableNames(q, tableNames))
 				if err != nil {
 					ref.unsupported = err.Error()
 				}
-				rq.query = sqlddl.StripComments(expandTableNames(q, tableNames))
+				rq.query = sqlddl.StripComments(q)
 				ref.queries = append(ref.queries, rq)
 			}
 		}
